@@ -8,5 +8,23 @@ CHECKS = [
           "diagonal, symmetry / out-strength, zero-budget identity and the latticiser re-indexing identity; exhaustive "
           "over all small graphs, Spy and Hostile schedules, chains of single-iteration calls",
   "note": NOTE},
+ {"id": "C06", "technique": "runtime post-condition monitor + trajectory monitor under injected RNG schedules",
+  "text": "every call of the four signed randomisers is checked for per-node positive/negative in/out degree, the "
+          "positive and negative weight multisets, empty diagonal, symmetry, and the returned strength correlations "
+          "are recomputed from input and output; dense and sparse sign patterns, all bin_swaps x wei_freq, Spy and "
+          "Hostile schedules, chains of single-iteration calls",
+  "note": NOTE},
+ {"id": "C11", "technique": "runtime post-condition monitor (BFS connectivity, cost sums, masks) on hostile sparse inputs, "
+                            "trajectory monitor, sys.monitoring capture of the distance matrix in use",
+  "text": "(strong) connectivity of every output of the four *_connected routines by an independent BFS, on inputs whose "
+          "enumerated hostility index (fraction of swaps that disconnect) is reported; lattice cost before/after for "
+          "caller-supplied and captured default D; mask cells; negative cases must raise BCTParamError; chains of "
+          "single-iteration calls check connectivity after every accepted swap at the API boundary",
+  "note": NOTE},
+ {"id": "C20", "technique": "runtime post-condition monitor over exhaustively enumerated configurations and injected RNG schedules",
+  "text": "shape, 0/1 values, empty diagonal, exact connection count, symmetry, band occupancy of the ring lattice, "
+          "cluster completeness, reported count, degree sequences; every (N,K) up to the bound, Spy seeds and every "
+          "Hostile policy",
+  "note": NOTE},
 ]
 NOT_APPLICABLE = []
